@@ -152,6 +152,7 @@ func runDyn(o *Opts) *Summary {
 	s := &Summary{Mode: "dyn", Extra: map[string]interface{}{}}
 	var w *World
 	joins, leaves, refused := 0, 0, 0
+	restarts := 0
 	sigInj := map[string]int{}
 	ffJoins := 0
 	for t := 0; t < o.Traces; t++ {
@@ -223,7 +224,7 @@ func runDyn(o *Opts) *Summary {
 					switch {
 					case c <= 2 || len(validators) <= 2: // join (new participant, or one that left)
 						var p *Part
-						if len(left) > 0 && w.rng.Intn(2) == 0 {
+						if len(left) > 0 && w.rng.Intn(2) == 0 && o.Arg != "restart" {
 							p = left[0].part
 							left = left[1:]
 						} else {
@@ -235,7 +236,7 @@ func runDyn(o *Opts) *Summary {
 						via := validators[w.rng.Intn(len(validators))]
 						accept := w.rng.Intn(5) > 0 || growth
 						fsync := o.Arg == "fastsync" && w.rng.Intn(3) > 0
-						j := vn.NewNode(p, gen, []int{via.num}, NodeOpts{Store: "inmem", Cache: o.Cache, SyncLimit: 40, FastSync: fsync, SuspendLimit: dynSuspendLimit})
+						j := vn.NewNode(p, gen, []int{via.num}, NodeOpts{Store: "inmem", Cache: maxInt(o.Cache, 20000), SyncLimit: 40, FastSync: fsync, SuspendLimit: dynSuspendLimit})
 						j.node.Init()
 						vn.emitNodeUp(j, "join")
 						ops = append(ops, vn.startJoin(j, via, accept))
@@ -367,6 +368,36 @@ func runDyn(o *Opts) *Summary {
 					}
 				}
 			}
+			// restarts (clean shutdown, or kill between two steps) of nodes with a
+			// persistent store, bootstrap from the database, back into the network
+			if o.Arg == "restart" && k%40 == 25 {
+				cands := []*NNode{}
+				for _, n := range active {
+					busy := vn.pendingFor(ops, n)
+					for _, op := range ops {
+						if op.via == n || op.holder == n {
+							busy = true
+						}
+					}
+					if n.State() == "Babbling" && n.kind == "badger" && !busy {
+						cands = append(cands, n)
+					}
+				}
+				if len(cands) > 0 {
+					r := cands[w.rng.Intn(len(cands))]
+					kill := w.rng.Intn(2) == 0
+					m := vn.Restart(r, kill, gen, NodeOpts{Store: "badger", Cache: o.Cache, Dir: o.Dir, SyncLimit: 40, SuspendLimit: dynSuspendLimit})
+					for i, q := range active {
+						if q == r {
+							active[i] = m
+						}
+					}
+					restarts++
+					if m.State() != "Babbling" {
+						w.Emit(m.num, "Note", map[string]interface{}{"what": "restarted node is " + m.State()}, nil)
+					}
+				}
+			}
 			// Byzantine signature payloads
 			if k%9 == 4 {
 				cands := []*NNode{}
@@ -420,7 +451,7 @@ func runDyn(o *Opts) *Summary {
 		}
 		// no-quorum tail: fewer than a super-majority of the current validators keep
 		// gossiping; undetermined events pile up until the nodes suspend themselves
-		if len(ops) == 0 && t%2 == 0 {
+		if len(ops) == 0 && t%2 == 0 && o.Arg != "restart" {
 			bab := []*NNode{}
 			for _, n := range active {
 				if n.State() == "Babbling" && n.core.Validators().ByID[n.part.ID] != nil {
@@ -465,6 +496,7 @@ func runDyn(o *Opts) *Summary {
 		vn.Close()
 	}
 	s.Extra["joins"] = joins
+	s.Extra["restarts"] = restarts
 	s.Extra["leaves"] = leaves
 	s.Extra["refused_by_app"] = refused
 	s.Extra["valid_adopted"] = ffJoins
